@@ -41,6 +41,20 @@ CLAIMS = {
         technique="TLA+ spec + TLC (exhaustive + simulation), transition cover and behaviours replayed on the implementation",
         design_ref="6/C16",
     ),
+    "C18": dict(
+        engine="sequential-specs",
+        level="model_checking",
+        text="specs/vmnet/VMNet.tla models integrate_node / get_allocatable_address / reattach_interface (error exits as states) over a "
+             "small address space; TLC checks the consistency invariants (each interface registered in exactly one netconfig containing "
+             "its address, no duplicate address, allocation in range/fresh/exhausting) exhaustively on two instances. A transition cover of "
+             "the small graph and -simulate behaviours of larger instances are replayed on the real VMNetwork over a random 32-bit base; the "
+             "property is evaluated on the real registries after every step and the registries are compared with the spec state. "
+             "specs/vmnet/NetArith.tla recomputes every recorded mask_bit/_get_network_ip/translate_address call in 16-bit limbs",
+        note="static addresses are distinct and outside every DHCP range (the property requires allocation to hand out every address of the "
+             "range); proxy-ARP reattachment deliberately shares an address and is outside the invariant; vm objects are stubs",
+        technique="TLA+ spec + TLC (exhaustive + simulation), behaviours replayed on the implementation; call-record trace validation for the arithmetic",
+        design_ref="6/C18",
+    ),
 }
 
 NOT_YET = "machinery for this property is not built yet in this revision (see DESIGN.md section 9 build order)"
